@@ -87,7 +87,7 @@ impl Sink {
     self.n += 1;
     let name = op.split(' ').next().unwrap_or("?");
     *self.stats.entry(format!("op:{}", name)).or_insert(0) += 1;
-    if answer == "panic" {
+    if answer.starts_with("panic") {
       *self.stats.entry("answer:panic".to_string()).or_insert(0) += 1;
     }
     if nontrivial && self.distinct.insert(hash_str(op)) {
@@ -190,6 +190,20 @@ pub fn fmt_hint(h: (usize, Option<usize>)) -> String {
   }
 }
 
+/// Source location (`file:line`) of the most recent panic, recorded by the hook installed in `main`.
+pub static LAST_PANIC_SITE: std::sync::Mutex<String> = std::sync::Mutex::new(String::new());
+pub fn install_panic_hook() {
+  std::panic::set_hook(Box::new(|info| {
+    let site = info.location().map(|l| format!("{}:{}", l.file().trim_start_matches("/repo/"), l.line())).unwrap_or_else(|| "?".to_string());
+    if let Ok(mut g) = LAST_PANIC_SITE.lock() {
+      *g = site;
+    }
+  }));
+}
+/// `panic@file:line` of the last recorded panic (call right after a caught panic).
+pub fn panic_answer() -> String {
+  format!("panic@{}", LAST_PANIC_SITE.lock().map(|g| g.clone()).unwrap_or_default())
+}
 /// Run `f`, mapping a panic to `"panic"`.
 pub fn guarded<F: FnOnce() -> String + std::panic::UnwindSafe>(f: F) -> String {
   match std::panic::catch_unwind(f) {
